@@ -507,8 +507,13 @@ class S:
     def __rsub__(s, o): return s._b(o, lambda a, b: b - a)
     def __mul__(s, o): return s._b(o, lambda a, b: a * b)
     def __rmul__(s, o): return s._b(o, lambda a, b: b * a)
-    def __truediv__(s, o): return s._b(o, lambda a, b: a / b)
-    def __rtruediv__(s, o): return s._b(o, lambda a, b: b / a)
+    def __truediv__(s, o):
+        z = _zero_division(s, o)
+        return z if z is not None else s._b(o, lambda a, b: a / b)
+
+    def __rtruediv__(s, o):
+        z = _zero_division(o, s)
+        return z if z is not None else s._b(o, lambda a, b: b / a)
     def __neg__(s): return S(z3.simplify(-s.t))
     def __pos__(s): return s
     def __abs__(s):
@@ -616,6 +621,34 @@ class S:
         return f"S({s.t})"
 
 
+def _is_const_zero(v):
+    if isinstance(v, S):
+        t = z3.simplify(v.t)
+        return z3.is_rational_value(t) and t.numerator_as_long() == 0
+    if isinstance(v, (int, float, np.integer, np.floating)):
+        return v == 0
+    return False
+
+
+def _zero_division(num, den):
+    """IEEE semantics of a division by a concrete zero (numpy gives +-inf / nan and goes on): decided by the sign of the numerator (forking if symbolic)"""
+    if isinstance(den, np.ndarray) or isinstance(num, np.ndarray) or not _is_const_zero(den):
+        return None
+    if isinstance(num, S):
+        t = z3.simplify(num.t)
+        if z3.is_rational_value(t):
+            n_ = t.numerator_as_long()
+            return float("inf") if n_ > 0 else (float("-inf") if n_ < 0 else float("nan"))
+        if bool(num > 0):
+            return float("inf")
+        if bool(num < 0):
+            return float("-inf")
+        return float("nan")
+    if isinstance(num, (int, float, np.integer, np.floating)):
+        return float("inf") if num > 0 else (float("-inf") if num < 0 else float("nan"))
+    return None
+
+
 Number.register(S)
 
 
@@ -681,7 +714,16 @@ def _el(f, nin):
     return np.frompyfunc(f, nin, 1)
 
 
+def _isinf(v):
+    return isinstance(v, (float, np.floating)) and math.isinf(v)
+
+
 def smin(a, b):
+    if _isinf(a) or _isinf(b):
+        if _isinf(a) and _isinf(b):
+            return min(a, b)
+        inf_, other = (a, b) if _isinf(a) else (b, a)
+        return other if inf_ > 0 else inf_
     if isinstance(a, S) or isinstance(b, S):
         x, y = lift(a), lift(b)
         if Engine.cur is not None and Engine.cur.opaque_ext:
@@ -691,6 +733,11 @@ def smin(a, b):
 
 
 def smax(a, b):
+    if _isinf(a) or _isinf(b):
+        if _isinf(a) and _isinf(b):
+            return max(a, b)
+        inf_, other = (a, b) if _isinf(a) else (b, a)
+        return inf_ if inf_ > 0 else other
     if isinstance(a, S) or isinstance(b, S):
         x, y = lift(a), lift(b)
         if Engine.cur is not None and Engine.cur.opaque_ext:
